@@ -498,7 +498,7 @@ fn c08_inner(x: &str, out: &str, cfg: &Cfg, opts: &C08Opts, ctx: &mut Ctx) {
     let toks = r::scan(out);
     let mask = verbatim_mask(out, &toks);
     let input_has_token = r::scan(x).len() > 1;
-    let case = || case_fmt("c08", x, cfg);
+    let case = || json!({"oracle": "c08", "input": x, "cfg": cfg, "eof_clause": opts.eof_clause});
     for (i, t) in toks.iter().enumerate() {
         if mask[i] {
             continue;
